@@ -187,6 +187,7 @@ GRAMMARS = [
     'WHITESPACE = _{ " " | "\\t" | NEWLINE }\nCOMMENT = _{ "#" ~ (!NEWLINE ~ ANY)* }\nr = { (ASCII_DIGIT+ | ident)* }\nident = @{ ASCII_ALPHA ~ ASCII_ALPHANUMERIC* }',
     'COMMENT = _{ "/*" ~ (!"*/" ~ ANY)* ~ "*/" }\nr = ${ PUSH(LETTER+) ~ (!PEEK ~ ANY)* ~ POP }',
     's = _{ "a" | "b" }\nr = { s{2} ~ s{1,} ~ s{,2} ~ #tt=s }',
+    'x = { ANY* }\nr = @{ (!("b" | "\\n") ~ ANY)* ~ "b" ~ x }',
 ]
 INPUTS = ["", "x", "a\n", "12 ab #c\n7", "/*x*/ab", "abab", "aaaaab", "é"]
 
@@ -262,6 +263,22 @@ def dynamic_frame_check() -> dict:
         later.append((gi, True, "interp", Parser.from_grammar(g)))
     observe_all("fresh instances built later", later)
     check("everything")
+    # the very same str object parsed from every start position and then again from 0 (a cache keyed on the identity of
+    # the input, as in seeded/C15, only shows when one object is parsed twice from different positions)
+    for gi, opt, kind, p in parsers:
+        f = p.parse if hasattr(p, "parse") else p
+        for text in INPUTS:
+            for k in range(len(text), -1, -1):
+                n += 1
+                try:
+                    f("r", text, start_pos=k)
+                except Exception:  # noqa: BLE001, S110
+                    pass
+            got = _observe(p, "r", text)
+            if got != observed[(gi, opt, kind, text)]:
+                bad.append({"what": "result changed after the same input object was parsed from other start positions", "grammar": GRAMMARS[gi], "optimized": opt, "mode": kind, "text": text,
+                            "before": str(observed[(gi, opt, kind, text)])[:120], "after": str(got)[:120]})
+    check("same object from several positions")
     # concurrency stand-in: the same shared parsers from 8 threads
     errors: list[Any] = []
 
